@@ -36,6 +36,12 @@ Theorem ffi_names_agree : forall s, In s ffi_exported <-> In s ffi_declared.
 Proof. exact names_agree_In. Qed.
 Print Assumptions ffi_names_agree.
 
+(* ... with the same prototypes: parameter types in the same order and the same return type
+   (types as ABI tokens: usize = uintptr_t, f64 = double, u32 = uint32_t, pointers, the two enums, the callback) *)
+Theorem ffi_prototypes_agree : forall x, In x ffi_rust_prototypes <-> In x ffi_header_prototypes.
+Proof. exact prototypes_agree. Qed.
+Print Assumptions ffi_prototypes_agree.
+
 (* the algorithm entry points found in lib.rs are exactly the seven of the property *)
 Theorem ffi_seven_entries :
   same_names (map fe_name ffi_entries)
@@ -75,20 +81,21 @@ Theorem ffi_never_unwinds :
   (forall rust p0 ws k, coupe_greedy rust p0 ws k <> Unwinds)
   /\ (forall rust p0 ws k, coupe_karmarkar_karp rust p0 ws k <> Unwinds)
   /\ (forall rust p0 ws k, coupe_karmarkar_karp_complete rust p0 ws k <> Unwinds)
-  /\ (forall rust p0 dim pts ws params, coupe_rcb rust p0 dim pts ws params <> Unwinds)
-  /\ (forall rust p0 dim pts ws params, coupe_rib rust p0 dim pts ws params <> Unwinds)
-  /\ (forall rust p0 dim pts ws params, coupe_hilbert rust p0 dim pts ws params <> Unwinds)
+  /\ (forall rust p0 dim pts ws iter tol, coupe_rcb rust p0 dim pts ws iter tol <> Unwinds)
+  /\ (forall rust p0 dim pts ws iter tol, coupe_rib rust p0 dim pts ws iter tol <> Unwinds)
+  /\ (forall rust p0 pts ws k o, coupe_hilbert rust p0 pts ws k o <> Unwinds)
   /\ (forall rust p0 adj ws a b c d, coupe_fiduccia_mattheyses rust p0 adj ws a b c d <> Unwinds).
 Proof. exact never_unwinds. Qed.
 Print Assumptions ffi_never_unwinds.
 
 (* and the guard is what does it: the same entry point without it would unwind *)
-Theorem ffi_guard_needed : forall arms crash e rust p0 ws k s rest W site,
+Theorem ffi_guard_needed : forall arms crash e rust p0 ws args ps s rest W site,
   ce_guarded e = false -> ce_pre e = [] ->
+  Nat.eqb (List.length args) (ce_arity e) = true -> build_params (ce_params e) args = Some ps ->
   take_slice (dlen ws) p0 = Some (s, rest) ->
   denote_scalars (numty_for (ce_w e) (dtype ws)) ws = Some W ->
-  rust (numty_for (ce_w e) (dtype ws)) W k s = Panic site ->
-  entry_num arms crash e rust p0 ws k = Unwinds.
+  rust (numty_for (ce_w e) (dtype ws)) W ps s = Panic site ->
+  entry_num arms crash e rust p0 ws args = Unwinds.
 Proof. exact entry_num_unguarded_unwinds. Qed.
 Print Assumptions ffi_guard_needed.
 
@@ -99,42 +106,42 @@ Print Assumptions ffi_guard_needed.
 Theorem ffi_agrees_greedy : forall rust p0 ws k s rest W,
   take_slice (dlen ws) p0 = Some (s, rest) ->
   denote_scalars (tag_numty (dtype ws)) ws = Some W ->
-  coupe_greedy rust p0 ws k = expected rest (rust (tag_numty (dtype ws)) W k s).
+  coupe_greedy rust p0 ws k = expected rest (rust (tag_numty (dtype ws)) W [Some k] s).
 Proof. exact agrees_greedy. Qed.
 Print Assumptions ffi_agrees_greedy.
 
 Theorem ffi_agrees_karmarkar_karp : forall rust p0 ws k s rest W,
   take_slice (dlen ws) p0 = Some (s, rest) ->
   denote_scalars (tag_numty_kk (dtype ws)) ws = Some W ->
-  coupe_karmarkar_karp rust p0 ws k = expected rest (rust (tag_numty_kk (dtype ws)) W k s).
+  coupe_karmarkar_karp rust p0 ws k = expected rest (rust (tag_numty_kk (dtype ws)) W [Some k] s).
 Proof. exact agrees_kk. Qed.
 Print Assumptions ffi_agrees_karmarkar_karp.
 
 Theorem ffi_agrees_karmarkar_karp_complete : forall rust p0 ws tol s rest W,
   take_slice (dlen ws) p0 = Some (s, rest) ->
   denote_scalars (tag_numty (dtype ws)) ws = Some W ->
-  coupe_karmarkar_karp_complete rust p0 ws tol = expected rest (rust (tag_numty (dtype ws)) W tol s).
+  coupe_karmarkar_karp_complete rust p0 ws tol = expected rest (rust (tag_numty (dtype ws)) W [Some tol] s).
 Proof. exact agrees_ckk. Qed.
 Print Assumptions ffi_agrees_karmarkar_karp_complete.
 
 (* rcb, rib: LEN_MISMATCH first, then dimension 2/3 -> the algorithm, any other -> BAD_DIMENSION *)
-Theorem ffi_agrees_rcb : forall rust p0 dim pts ws params s rest,
+Theorem ffi_agrees_rcb : forall rust p0 dim pts ws iter tol s rest,
   take_slice (dlen pts) p0 = Some (s, rest) ->
-  coupe_rcb rust p0 dim pts ws params = geo_expected rust p0 dim pts ws params s rest.
+  coupe_rcb rust p0 dim pts ws iter tol = geo_expected rust p0 dim pts ws iter tol s rest.
 Proof. exact agrees_rcb. Qed.
 Print Assumptions ffi_agrees_rcb.
 
-Theorem ffi_agrees_rib : forall rust p0 dim pts ws params s rest,
+Theorem ffi_agrees_rib : forall rust p0 dim pts ws iter tol s rest,
   take_slice (dlen pts) p0 = Some (s, rest) ->
-  coupe_rib rust p0 dim pts ws params = geo_expected rust p0 dim pts ws params s rest.
+  coupe_rib rust p0 dim pts ws iter tol = geo_expected rust p0 dim pts ws iter tol s rest.
 Proof. exact agrees_rib. Qed.
 Print Assumptions ffi_agrees_rib.
 
 (* hilbert: LEN_MISMATCH, then BAD_TYPE unless the weights are tagged double, then 2-D points and f64
    weights; every error of the algorithm becomes NOT_FOUND *)
-Theorem ffi_agrees_hilbert : forall rust p0 dim pts ws params s rest,
+Theorem ffi_agrees_hilbert : forall rust p0 pts ws part_count order s rest,
   take_slice (dlen pts) p0 = Some (s, rest) ->
-  coupe_hilbert rust p0 dim pts ws params = hilbert_expected rust p0 pts ws params s rest.
+  coupe_hilbert rust p0 pts ws part_count order = hilbert_expected rust p0 pts ws part_count order s rest.
 Proof. exact agrees_hilbert. Qed.
 Print Assumptions ffi_agrees_hilbert.
 
@@ -146,19 +153,137 @@ Theorem ffi_agrees_fiduccia_mattheyses : forall rust p0 adj ws a b c d s rest,
 Proof. exact agrees_fm. Qed.
 Print Assumptions ffi_agrees_fiduccia_mattheyses.
 
-(* ---- a panic inside the algorithm is reported as CRASH ---- *)
-Theorem ffi_panic_contained_greedy : forall rust p0 ws k s rest W site,
-  take_slice (dlen ws) p0 = Some (s, rest) ->
-  denote_scalars (tag_numty (dtype ws)) ws = Some W ->
-  rust (tag_numty (dtype ws)) W k s = Panic site ->
-  coupe_greedy rust p0 ws k = Returns CCrash None.
-Proof. intros rust p0 ws k s rest W site Hs Hd Hr. rewrite (agrees_greedy rust p0 ws k s rest W Hs Hd), Hr. exact eq_refl. Qed.
-Print Assumptions ffi_panic_contained_greedy.
+(* the parameter conversions of coupe_fiduccia_mattheyses used above, on examples *)
+Theorem ffi_fm_conversions :
+  fm_opt 0 = None /\ (forall x, x <> 0%N -> fm_opt x = Some x)
+  /\ fm_imbalance 0 = None
+  /\ fm_imbalance 13830554455654793216 = None
+  /\ fm_imbalance 4587366580439587226 = Some 4587366580439587226%N
+  /\ fm_imbalance 9221120237041090560 = Some 9221120237041090560%N.
+Proof. exact fm_conversions. Qed.
+Print Assumptions ffi_fm_conversions.
+
+(* ---- a panic inside the algorithm is reported as CRASH (every entry point, inside the contract) ---- *)
+Theorem ffi_panic_contained :
+  (forall rust p0 ws k s rest W site, take_slice (dlen ws) p0 = Some (s, rest) ->
+     denote_scalars (tag_numty (dtype ws)) ws = Some W -> rust (tag_numty (dtype ws)) W [Some k] s = Panic site ->
+     coupe_greedy rust p0 ws k = Returns CCrash None)
+  /\ (forall rust p0 ws k s rest W site, take_slice (dlen ws) p0 = Some (s, rest) ->
+     denote_scalars (tag_numty_kk (dtype ws)) ws = Some W -> rust (tag_numty_kk (dtype ws)) W [Some k] s = Panic site ->
+     coupe_karmarkar_karp rust p0 ws k = Returns CCrash None)
+  /\ (forall rust p0 ws k s rest W site, take_slice (dlen ws) p0 = Some (s, rest) ->
+     denote_scalars (tag_numty (dtype ws)) ws = Some W -> rust (tag_numty (dtype ws)) W [Some k] s = Panic site ->
+     coupe_karmarkar_karp_complete rust p0 ws k = Returns CCrash None)
+  /\ (forall rust p0 dim pts ws iter tol s rest P W site, take_slice (dlen pts) p0 = Some (s, rest) ->
+     dlen pts = dlen ws -> existsb (N.eqb dim) [2; 3]%N = true ->
+     denote_points (N.to_nat dim) pts = Some P -> denote_scalars (tag_numty (dtype ws)) ws = Some W ->
+     rust (N.to_nat dim) P (tag_numty (dtype ws)) W [Some iter; Some tol] s = Panic site ->
+     coupe_rcb rust p0 dim pts ws iter tol = Returns CCrash None
+     /\ coupe_rib rust p0 dim pts ws iter tol = Returns CCrash None)
+  /\ (forall rust p0 pts ws k o s rest P W site, take_slice (dlen pts) p0 = Some (s, rest) ->
+     dlen pts = dlen ws -> dtype ws = TDouble ->
+     denote_points 2 pts = Some P -> denote_scalars F64 ws = Some W ->
+     rust 2 P F64 W [Some k; Some o] s = Panic site ->
+     coupe_hilbert rust p0 pts ws k o = Returns CCrash None)
+  /\ (forall rust p0 adj ws a b c d s rest W site, take_slice (dlen ws) p0 = Some (s, rest) ->
+     a_type adj = TInt64 -> denote_scalars (tag_numty (dtype ws)) ws = Some W ->
+     rust adj (tag_numty (dtype ws)) W [fm_opt a; fm_opt b; fm_imbalance c; Some d] s = Panic site ->
+     coupe_fiduccia_mattheyses rust p0 adj ws a b c d = Returns CCrash None).
+Proof. exact panic_contained. Qed.
+Print Assumptions ffi_panic_contained.
+
+(* ---- representation independence: denote d1 = denote d2 -> entry d1 = entry d2 ----
+   An entry point depends on a data set only through its length, its Type tag and the elements it denotes
+   at the element type the entry point reads it at. *)
+Theorem ffi_repr_indep_greedy : forall rust p0 w1 w2 k,
+  dlen w1 = dlen w2 -> dtype w1 = dtype w2 ->
+  denote_scalars (tag_numty (dtype w1)) w1 = denote_scalars (tag_numty (dtype w1)) w2 ->
+  coupe_greedy rust p0 w1 k = coupe_greedy rust p0 w2 k.
+Proof. exact repr_indep_greedy. Qed.
+Theorem ffi_repr_indep_karmarkar_karp : forall rust p0 w1 w2 k,
+  dlen w1 = dlen w2 -> dtype w1 = dtype w2 ->
+  denote_scalars (tag_numty_kk (dtype w1)) w1 = denote_scalars (tag_numty_kk (dtype w1)) w2 ->
+  coupe_karmarkar_karp rust p0 w1 k = coupe_karmarkar_karp rust p0 w2 k.
+Proof. exact repr_indep_kk. Qed.
+Theorem ffi_repr_indep_karmarkar_karp_complete : forall rust p0 w1 w2 k,
+  dlen w1 = dlen w2 -> dtype w1 = dtype w2 ->
+  denote_scalars (tag_numty (dtype w1)) w1 = denote_scalars (tag_numty (dtype w1)) w2 ->
+  coupe_karmarkar_karp_complete rust p0 w1 k = coupe_karmarkar_karp_complete rust p0 w2 k.
+Proof. exact repr_indep_ckk. Qed.
+Theorem ffi_repr_indep_rcb : forall rust p0 dim q1 q2 w1 w2 iter tol,
+  dlen q1 = dlen q2 -> (forall d, denote_points d q1 = denote_points d q2) ->
+  dlen w1 = dlen w2 -> dtype w1 = dtype w2 ->
+  denote_scalars (tag_numty (dtype w1)) w1 = denote_scalars (tag_numty (dtype w1)) w2 ->
+  coupe_rcb rust p0 dim q1 w1 iter tol = coupe_rcb rust p0 dim q2 w2 iter tol.
+Proof. exact repr_indep_rcb. Qed.
+Theorem ffi_repr_indep_rib : forall rust p0 dim q1 q2 w1 w2 iter tol,
+  dlen q1 = dlen q2 -> (forall d, denote_points d q1 = denote_points d q2) ->
+  dlen w1 = dlen w2 -> dtype w1 = dtype w2 ->
+  denote_scalars (tag_numty (dtype w1)) w1 = denote_scalars (tag_numty (dtype w1)) w2 ->
+  coupe_rib rust p0 dim q1 w1 iter tol = coupe_rib rust p0 dim q2 w2 iter tol.
+Proof. exact repr_indep_rib. Qed.
+Theorem ffi_repr_indep_hilbert : forall rust p0 q1 q2 w1 w2 k o,
+  dlen q1 = dlen q2 -> denote_points 2 q1 = denote_points 2 q2 ->
+  dlen w1 = dlen w2 -> dtype w1 = dtype w2 ->
+  denote_scalars F64 w1 = denote_scalars F64 w2 ->
+  coupe_hilbert rust p0 q1 w1 k o = coupe_hilbert rust p0 q2 w2 k o.
+Proof. exact repr_indep_hilbert. Qed.
+Theorem ffi_repr_indep_fiduccia_mattheyses : forall rust p0 adj w1 w2 a b c d,
+  dlen w1 = dlen w2 -> dtype w1 = dtype w2 ->
+  denote_scalars (tag_numty (dtype w1)) w1 = denote_scalars (tag_numty (dtype w1)) w2 ->
+  coupe_fiduccia_mattheyses rust p0 adj w1 a b c d = coupe_fiduccia_mattheyses rust p0 adj w2 a b c d.
+Proof. exact repr_indep_fm. Qed.
+Print Assumptions ffi_repr_indep_greedy.
+Print Assumptions ffi_repr_indep_karmarkar_karp.
+Print Assumptions ffi_repr_indep_karmarkar_karp_complete.
+Print Assumptions ffi_repr_indep_rcb.
+Print Assumptions ffi_repr_indep_rib.
+Print Assumptions ffi_repr_indep_hilbert.
+Print Assumptions ffi_repr_indep_fiduccia_mattheyses.
+
+(* the tag hypothesis cannot be dropped: empty data sets denote the same elements whatever their tag, yet
+   coupe_hilbert answers BAD_TYPE on the tag alone *)
+Theorem ffi_repr_indep_needs_tag :
+  let w1 := DArray 0 TInt [] in let w2 := DArray 0 TDouble [] in
+  (forall ct w, denote ct w w1 = denote ct w w2)
+  /\ coupe_hilbert (fun _ _ _ _ _ s => Ok s) [] (DArray 0 TDouble []) w1 2%N 1%N = Returns CBadType (Some [])
+  /\ coupe_hilbert (fun _ _ _ _ _ s => Ok s) [] (DArray 0 TDouble []) w2 2%N 1%N = Returns COk (Some []).
+Proof. exact repr_indep_needs_tag. Qed.
+Print Assumptions ffi_repr_indep_needs_tag.
+
+(* what the three representations denote: an array whose memory holds the elements back to back denotes
+   them; a constant is the array of its repetitions; a callback is the array of what it returns *)
+Theorem ffi_denote_array : forall ct w t (L : list (list value)) rest,
+  (forall c, In c L -> typed ct w c) ->
+  denote ct w (DArray (List.length L) t (List.concat L ++ rest)) = Some L.
+Proof. exact denote_array. Qed.
+Theorem ffi_constant_as_array : forall ct w n t t' p c,
+  read ct w p = Some c ->
+  denote ct w (DConstant n t p) = denote ct w (DArray n t' (List.concat (repeat c n))).
+Proof. exact constant_as_array. Qed.
+Theorem ffi_fn_as_array : forall ct w n t t' f g,
+  (forall i, i < n -> read ct w (f i) = Some (g i)) ->
+  denote ct w (DFn n t f) = denote ct w (DArray n t' (List.concat (map g (seq 0 n)))).
+Proof. exact fn_as_array. Qed.
+Print Assumptions ffi_denote_array.
+Print Assumptions ffi_constant_as_array.
+Print Assumptions ffi_fn_as_array.
 
 (* ---- non-vacuity ---- *)
 Example C17_nonvacuous_greedy :
-  coupe_greedy (fun nt ws k s => Ok [0; 1; 0]%N) [9; 9; 9; 7]%N (DConstant 3 TInt [VInt 5]) 2%N
+  coupe_greedy (fun nt ws ps s => Ok [0; 1; 0]%N) [9; 9; 9; 7]%N (DConstant 3 TInt [VInt 5]) 2%N
   = Returns COk (Some [0; 1; 0; 7]%N)
-  /\ coupe_greedy (fun nt ws k s => Panic 1%N) [9; 9; 9; 7]%N (DArray 3 TInt64 [VInt64 5; VInt64 6; VInt64 7]) 2%N
+  /\ coupe_greedy (fun nt ws ps s => Panic 1%N) [9; 9; 9; 7]%N (DArray 3 TInt64 [VInt64 5; VInt64 6; VInt64 7]) 2%N
      = Returns CCrash None.
 Proof. split; vm_compute; reflexivity. Qed.
+
+(* the same three weights through the three representations and a callback that counts from the end *)
+Example C17_nonvacuous_representations :
+  let rust := fun (nt : numty) (ws : list value) (ps : list (option N)) (s : list N) =>
+    if values_same ws [VInt 5; VInt 5; VInt 5] then Ok [0; 1; 0]%N else Panic 7%N in
+  coupe_greedy rust [9; 9; 9]%N (DArray 3 TInt [VInt 5; VInt 5; VInt 5]) 2%N = Returns COk (Some [0; 1; 0]%N)
+  /\ coupe_greedy rust [9; 9; 9]%N (DConstant 3 TInt [VInt 5]) 2%N = Returns COk (Some [0; 1; 0]%N)
+  /\ coupe_greedy rust [9; 9; 9]%N (DFn 3 TInt (fun i => skipn (2 - i) [VInt 5; VInt 5; VInt 5])) 2%N = Returns COk (Some [0; 1; 0]%N)
+  (* and reading an int array at the double type is outside the model (undefined behaviour in the real code) *)
+  /\ coupe_greedy rust [9; 9; 9]%N (DArray 3 TDouble [VInt 5; VInt 5; VInt 5]) 2%N = UB.
+Proof. repeat split; vm_compute; reflexivity. Qed.
